@@ -95,13 +95,21 @@ def run_history(case):
 def run_access(case):
     Engine = _engine_cls()
     engine = Engine({"provide_python_modules": case["allow"]})
-    helper = engine._environment.globals.get("python")  # pylint: disable=protected-access
+    import introspect as I
+    import jinja2
+    env = I.find_instance(engine, jinja2.Environment)
+    if env is None:
+        return {"unobservable": "the engine holds no jinja2.Environment"}
+    helper = env.globals.get("python")
     if helper is None:
         return {"helper": False, "decisions": []}
+    check = I.find_method(helper, "check", "access")
+    if check is None:
+        return {"unobservable": "the python helper has no access-check method"}
     out = []
     for q in case["queries"]:
         try:
-            helper._check_access(q)  # pylint: disable=protected-access
+            check(q)
             out.append(True)
         except RuntimeError:
             out.append(False)
@@ -114,7 +122,11 @@ def run_join(case):
     if case.get("relative") is not None:
         cfg["relative_includes"] = case["relative"]
     engine = Engine(cfg)
-    env = engine._environment  # pylint: disable=protected-access
+    import introspect as I
+    import jinja2
+    env = I.find_instance(engine, jinja2.Environment)
+    if env is None:
+        return {"unobservable": "the engine holds no jinja2.Environment"}
     return {"joined": [env.join_path(t, p) for t, p in case["pairs"]]}
 
 
